@@ -128,6 +128,24 @@ theorem tagClause_val (info : Option FieldInfo) (ds : List Char) (n : Nat) (h : 
     tagClause info ("val:".toList ++ ds) = some { info.getD {} with val := n } := by
   simp [tagClause, stripPrefix, h]
 
+/-! ### the regenerated final checks (`Gen.tagFinalChecks`), as far as the documented tag forms need them -/
+
+/-- an info without selector is accepted iff `1 ≤ count ≤ 8`, `minlen ≤ maxlen`, `val = 0` -/
+theorem finalChecks_plain (cs : Bool) (c mn mx v : Nat) :
+    Gen.tagFinalChecks true cs (Int.ofNat c) (Int.ofNat mn) (Int.ofNat mx) (Int.ofNat v) = true ↔
+      (1 ≤ c ∧ c ≤ 8 ∧ mn ≤ mx ∧ v = 0) := by
+  unfold Gen.tagFinalChecks
+  simp only [Int.ofNat_eq_natCast, Bool.true_or, Bool.or_true, if_true, decide_eq_true_eq]
+  repeat' split
+  all_goals simp_all
+  all_goals omega
+
+/-- a selector clause without any size clause is always accepted -/
+theorem finalChecks_selector (mn mx v : Nat) :
+    Gen.tagFinalChecks false false 0 (Int.ofNat mn) (Int.ofNat mx) (Int.ofNat v) = true := by
+  unfold Gen.tagFinalChecks
+  simp
+
 theorem no_comma_kw (kw ds : List Char) (h1 : ',' ∉ kw) (h2 : ',' ∉ ds) : ',' ∉ kw ++ ds := by
   simp [h1, h2]
 
